@@ -390,7 +390,9 @@ def prepare_k_file(check, mirror, name):
     assume(!(predicate)) for every open known finding of that obligation (DESIGN §1.3)."""
     kdir = os.path.join(mirror.root, "k")
     os.makedirs(kdir, exist_ok=True)
-    shutil.copy(os.path.join(VERIF, "engines/k/kstubs.rs"), os.path.join(kdir, "kstubs.rs"))
+    for f in os.listdir(os.path.join(VERIF, "engines/k")):
+        if f.startswith("kstubs"):
+            shutil.copy(os.path.join(VERIF, "engines/k", f), os.path.join(kdir, f))
     with open(os.path.join(VERIF, "engines/k", name)) as f:
         t = f.read()
 
